@@ -14,7 +14,12 @@ decisions taken here are Python's static ones:
   * `f(...)` names a builtin of the interpreter (`int bool str hasattr issubclass`, not rebound by the module), the
     py3 `utils.tostr` (imported locally; its definition is checked to be `return str(value)`), or a function defined
     EARLIER in the same module (`Expr.call`); calling a local variable is `Expr.callv`;
-  * `a and b and c` is dumped as `a and (b and c)` (same value, same evaluation order).
+  * `a and b and c` is dumped as `a and (b and c)` (same value, same evaluation order);
+  * a module-level name bound exactly once, to a tuple of constants (`POSSIBLE_VALUES_ON_OFF`), is dumped as that tuple;
+  * a function imported at module level from a sibling module that is dumped as a whole (`from .conversions import …`) is
+    callable like an earlier function of the module (the Lean side runs the module after the imported one:
+    `conversions ++ constants`); `IndexSizeErrorException` imported from `.exceptions` is an exception class, after checking
+    that its base class is the one the interpreter assumes (`ValueError`).
 Everything outside the subset raises `Untranslatable` with file:line — a broken tie, never a skip.  The module is never
 imported or executed.
 """
@@ -33,7 +38,13 @@ class Untranslatable(ValueError):
 # all be of a recognised shape)
 MODULES = [
     ('conversions.py', 'conversions', None),
+    ('constants.py', 'constants', ['_special_value_rows', '_special_value_cols', '_special_value_autocomplete',
+                                   '_special_value_size', '_special_value_maxLength']),
+    ('utils.py', 'utils', ['escapeQuotes', 'unescapeQuotes']),
 ]
+
+# exception classes of the library that may be named, with the base class the interpreter assumes (PyAst.errIsA)
+LIBRARY_EXC = {('exceptions', 'IndexSizeErrorException'): 'ValueError'}
 
 BUILTIN_FUNCS = ('int', 'bool', 'str', 'hasattr', 'issubclass')
 BUILTIN_EXC = ('BaseException', 'Exception', 'ValueError', 'TypeError', 'KeyError', 'IndexError', 'AttributeError')
@@ -66,6 +77,9 @@ class _Module(object):
         self.bare_classes = set()
         self.functions = []            # FunctionDef nodes in source order
         self.rebound = set()           # every name bound at module level
+        self.const_tuples = {}         # X = ('a', 'b') bound once at module level -> the Tuple node
+        self.imported_funcs = {}       # name -> sibling module file it is imported from (module-level `from .m import f`)
+        self.imported_exc = set()      # library exception classes imported at module level
         self._scan()
 
     def fail(self, node, what):
@@ -93,15 +107,46 @@ class _Module(object):
                         and isinstance(st.value.func, ast.Name) and st.value.func.id in self.bare_classes \
                         and not st.value.args and not st.value.keywords:
                     self.singletons.add(st.targets[0].id)
+                if len(st.targets) == 1 and isinstance(st.targets[0], ast.Name) and isinstance(st.value, ast.Tuple) \
+                        and all(isinstance(e, ast.Constant) and (e.value is None or isinstance(e.value, (str, int, bool)))
+                                for e in st.value.elts):
+                    self.const_tuples[st.targets[0].id] = st.value
             elif isinstance(st, (ast.Import, ast.ImportFrom)):
                 for a in st.names:
                     self.rebound.add((a.asname or a.name).split('.')[0])
-        # a singleton must be bound exactly once
+                if isinstance(st, ast.ImportFrom) and st.level == 1 and st.module:
+                    for a in st.names:
+                        if a.asname is None:
+                            if (st.module, a.name) in LIBRARY_EXC:
+                                self.imported_exc.add(a.name)
+                            else:
+                                self.imported_funcs[a.name] = st.module + '.py'
+        # names bound anywhere below the top level (inside `if`, `for`, `try`, `with` … at module level) are rebound too
+        for st in self.tree.body:
+            if not isinstance(st, (ast.FunctionDef, ast.ClassDef)):
+                for n in ast.walk(st):
+                    if isinstance(n, ast.Name) and isinstance(n.ctx, (ast.Store, ast.Del)):
+                        self.rebound.add(n.id)
+                    elif isinstance(n, (ast.FunctionDef, ast.ClassDef)):
+                        self.rebound.add(n.name)
+                    elif isinstance(n, ast.alias):
+                        self.rebound.add((n.asname or n.name).split('.')[0])
+        # a singleton / constant tuple / imported name must be bound exactly once in the whole file
         counts = {}
         for st in ast.walk(self.tree):
             if isinstance(st, ast.Name) and isinstance(st.ctx, (ast.Store, ast.Del)):
                 counts[st.id] = counts.get(st.id, 0) + 1
+            elif isinstance(st, (ast.FunctionDef, ast.ClassDef)):
+                counts[st.name] = counts.get(st.name, 0) + 1
+            elif isinstance(st, ast.alias):
+                nm = (st.asname or st.name).split('.')[0]
+                counts[nm] = counts.get(nm, 0) + 1
+            elif isinstance(st, ast.arg):
+                counts[st.arg] = counts.get(st.arg, 0) + 1
         self.singletons = set(s for s in self.singletons if counts.get(s, 0) == 1)
+        self.const_tuples = dict((k, v) for k, v in self.const_tuples.items() if counts.get(k, 0) == 1)
+        self.imported_funcs = dict((k, v) for k, v in self.imported_funcs.items() if counts.get(k, 0) == 1)
+        self.imported_exc = set(k for k in self.imported_exc if counts.get(k, 0) == 1)
 
     def check_whole_module(self):
         """Every module-level statement is one we understand (used when the whole file is claimed)."""
@@ -122,6 +167,19 @@ class _Module(object):
         names = [f.name for f in self.functions]
         if len(set(names)) != len(names):
             self.fail(self.tree.body[0], 'a function is defined twice')
+
+
+def _check_library_exc(repo, module, name):
+    """The class must exist in the sibling module with exactly the base class the interpreter assumes."""
+    p = os.path.join(repo, 'AdvancedHTMLParser', module + '.py')
+    tree = _parse(open(p, encoding='utf-8').read(), p)
+    want = LIBRARY_EXC[(module, name)]
+    for st in tree.body:
+        if isinstance(st, ast.ClassDef) and st.name == name:
+            if len(st.bases) == 1 and isinstance(st.bases[0], ast.Name) and st.bases[0].id == want and not st.keywords:
+                return
+            raise Untranslatable('%s.py:%d: %s is not a direct subclass of %s' % (module, st.lineno, name, want))
+    raise Untranslatable('%s.py: no class %s' % (module, name))
 
 
 def _check_tostr(repo):
@@ -220,7 +278,14 @@ class _FunTranslator(object):
                 return '(.singleton %s)' % lean_str(n.id)
             if n.id in BUILTIN_EXC and n.id not in self.mod.rebound:
                 return '(.excClass %s)' % lean_str(n.id)
-            self.fail(n, 'name %s is neither local, a module singleton nor a builtin exception class' % n.id)
+            if n.id in self.mod.imported_exc:
+                for (m, c) in LIBRARY_EXC:
+                    if c == n.id:
+                        _check_library_exc(self.mod.repo, m, c)
+                return '(.excClass %s)' % lean_str(n.id)
+            if n.id in self.mod.const_tuples:
+                return self.expr(self.mod.const_tuples[n.id], module_scope=True)
+            self.fail(n, 'name %s is neither local, a module singleton / constant tuple nor an exception class' % n.id)
         if isinstance(n, ast.Tuple):
             if not isinstance(n.ctx, ast.Load):
                 self.fail(n, 'tuple target')
@@ -239,9 +304,22 @@ class _FunTranslator(object):
             for p in reversed(parts[:-1]):
                 out = '(%s %s %s)' % (ctor, p, out)
             return out
+        if isinstance(n, ast.Call) and n.keywords:
+            for a in n.args:
+                if isinstance(a, ast.Starred):
+                    self.fail(n, 'starred argument')
+            f = n.func
+            if not (isinstance(f, ast.Name) and (module_scope or f.id not in self.locals) and f.id in self.earlier):
+                self.fail(n, 'keyword arguments in a call of something else than a function of the module')
+            names = []
+            for k in n.keywords:
+                if k.arg is None or k.arg in names:
+                    self.fail(n, '** argument / repeated keyword')
+                names.append(k.arg)
+            return '(.callk %s [%s] [%s] [%s])' % (
+                lean_str(f.id), ', '.join(self.expr(a, module_scope) for a in n.args),
+                ', '.join(lean_str(k) for k in names), ', '.join(self.expr(k.value, module_scope) for k in n.keywords))
         if isinstance(n, ast.Call):
-            if n.keywords:
-                self.fail(n, 'keyword arguments')
             for a in n.args:
                 if isinstance(a, ast.Starred):
                     self.fail(n, 'starred argument')
@@ -372,6 +450,7 @@ def generate_code(repo):
     parts.append('namespace AHP.Gen.Code')
     parts.append('open AHP.Gen AHP.PyAst')
     parts.append('')
+    whole = {}          # file -> (lean name, function names) of the modules dumped as a whole
     for rel, lean_name, wanted in MODULES:
         mod = _Module(repo, rel)
         if wanted is None:
@@ -387,7 +466,17 @@ def generate_code(repo):
                 if w not in byname:
                     raise Untranslatable('%s: no top-level def %s' % (rel, w))
             fns = [f for f in mod.functions if f.name in wanted]
+        # functions imported from sibling modules that are dumped as a whole: callable like earlier functions
         earlier = []
+        scope = []
+        for name in sorted(mod.imported_funcs):
+            src = mod.imported_funcs[name]
+            if src in whole and name in whole[src][1]:
+                earlier.append(name)
+                if whole[src][0] not in scope:
+                    scope.append(whole[src][0])
+            elif src in whole and name in whole[src][2]:
+                mod.singletons.add(name)                    # the same object under the same name
         for fn in fns:
             parts.append(_FunTranslator(mod, fn, list(earlier)).translate())
             parts.append('')
@@ -395,6 +484,12 @@ def generate_code(repo):
         parts.append('/-- %s: the functions above, in source order -/' % rel)
         parts.append('def %s : List Fun :=\n  [%s]' % (lean_name, ',\n   '.join('%s_ast' % f.name for f in fns)))
         parts.append('')
+        if scope:
+            parts.append('/-- %s after the modules it imports functions from: what `runModule` is given -/' % rel)
+            parts.append('def %s_scope : List Fun := %s' % (lean_name, ' ++ '.join(scope + [lean_name])))
+            parts.append('')
+        if wanted is None:
+            whole[rel] = (lean_name, [f.name for f in fns], set(mod.singletons))
     parts.append('end AHP.Gen.Code')
     return '\n'.join(parts) + '\n'
 
